@@ -224,8 +224,9 @@ PARTS = [
     Part("fit-histories", None, check_fit_history, {"quick": 64, "thorough": 2000}, floor={"quick": 10, "thorough": 300},
          shrink={"quick": False, "thorough": True}, machine=fit_machine, steps={"quick": 6, "thorough": 6}),
     Part("function", lambda tier: fn_strategy(), check_fn, {"quick": 8000, "thorough": 200000}, floor={"quick": 2000, "thorough": 20000}),
-    Part("vle", vle_strategy, check_vle, {"quick": 16, "thorough": 160}, floor={"quick": 4, "thorough": 40},
+    Part("vle", vle_strategy, check_vle, {"quick": 32, "thorough": 320}, floor={"quick": 4, "thorough": 40},
          shrink={"quick": False, "thorough": False}),
 ]
-PARTS[2].min_per_shard = 1
-PARTS[0].min_per_shard = 2
+# every shard's first example is Hypothesis' minimal one, so small budgets use fewer shards with >= 4 examples each
+PARTS[2].min_per_shard = 4
+PARTS[0].min_per_shard = 4
